@@ -9,12 +9,13 @@ LETTERS = [(0x41, 0x5A), (0x61, 0x7A)]
 BOUNDS = {
     "quick": "every history of <= 2 adds of hostnames of depth 1..3 (3 adds: total depth <= 4, query depth <= 3) whose labels are single symbolic lower-case letters, "
              "then match on every hostname of depth 1..4 embedded in one of 4 URL forms (bare, http://h/p, h:8080, HTTPS://h/?q#f), len, iteration; "
-             "either-case labels for <= 2 adds of depth <= 2; add-order permutations for total depth <= 4",
+             "either-case labels for <= 2 adds of depth <= 2; add-order permutations for total depth <= 4; "
+             "3 internationalized labels (Latin with and without a digit in the punycode, Cyrillic), each occurrence spelled in punycode or Unicode (symbolic choice), in 6 add/query shapes with symbolic neighbour labels (two of them with two such labels in one hostname, mixed spellings included)",
     "thorough": "as quick, with 3 adds up to total depth 6 and permutations up to total depth 5",
 }
 STUBS = ["SymDict for trie children", "regex matcher (SPECIAL_HOSTS_RE, PROTOCOL_RE)", "real urllib.parse.urlsplit interpreted from source"]
 TRUSTED = ["spec/c09.py (label-suffix reference)", "pysx engine", "z3"]
-ASSUMPTIONS = ["labels are ASCII letters: IP literals / localhost (documented undefined) and punycode/IDN labels are outside the claim (idna codec is C code)",
+ASSUMPTIONS = ["symbolic labels are ASCII letters: IP literals / localhost (documented undefined) are outside the claim; punycode / IDN labels only as the 3 concrete label pairs of the idn items (the idna codec runs natively on them)",
                "longer histories than the bound outside the claim"]
 FORMS = [("", ""), ("http://", "/p"), ("", ":8080"), ("HTTPS://", "/?q#f")]
 
@@ -45,6 +46,46 @@ def order(st, depths, qdepth, perm):
     run_prop(st, "order_independent", S.order_independent, hosts, list(perm), q)
 
 
+# internationalized labels: (punycode spelling, Unicode spelling), checked against CPython's idna codec at import
+IDN = [("xn--tlrama-bvab", "t\u00e9l\u00e9rama"), ("xn--mnchen-3ya", "m\u00fcnchen"), ("xn--80aswg", "\u0441\u0430\u0439\u0442")]
+for _p, _u in IDN:
+    assert _p.encode("ascii").decode("idna") == _u
+IDN_SHAPES = [((("L",), ), ("q", "L")), ((("x", "L"), ("L",)), ("L",)), ((("L",), ("x", "L")), ("q", "x", "L")), ((("x", "L"), ("y", "L")), ("x", "L")),
+              ((("L",), ), ("L", "L")), ((("L", "L"), ("L",)), ("x", "L"))]
+
+
+def idn(st, i, shape, form):
+    puny, uni = IDN[i]
+    adds, query = IDN_SHAPES[shape]
+    k = [0]
+
+    def build(labels):
+        spelled, canon = [], []
+        for lb in labels:
+            if lb == "L":
+                k[0] += 1
+                pick = st.branch(st.bool_var("spell%d" % k[0]))      # each occurrence in either spelling
+                spelled.append(puny if pick else uni)
+                canon.append(uni)
+            else:
+                c = sym_str(st, "l_" + lb, 1, LOWER)
+                spelled.append(c)
+                canon.append(c)
+        sp, ca = [], []
+        for j in range(len(labels)):
+            sp += [spelled[j], "."]
+            ca += [canon[j], "."]
+        return cat(*(sp + ["fr"])), cat(*(ca + ["fr"]))
+    hosts, canon_hosts = [], []
+    for labels in adds:
+        a, b = build(labels)
+        hosts.append(a)
+        canon_hosts.append(b)
+    q, cq = build(query)
+    pre, post = FORMS[form]
+    run_prop(st, "idn_history", S.idn_history, hosts, canon_hosts, q, cq, pre, post)
+
+
 def items(tier):
     quick = tier == "quick"
     kmax = 3
@@ -65,6 +106,10 @@ def items(tier):
             for qd in range(1, 4):
                 out.append({"fn": "history", "params": {"depths": list(depths), "qdepth": qd, "form": 3, "mixed": True},
                             "name": "mixed-case adds=%s q=%d" % (list(depths), qd), "weight": 5 ** (sum(depths) + qd)})
+    for i in range(len(IDN)):
+        for shape in range(len(IDN_SHAPES)):
+            out.append({"fn": "idn", "params": {"i": i, "shape": shape, "form": (i + shape) % len(FORMS)}, "name": "idn %s shape=%d" % (IDN[i][0], shape),
+                        "weight": 30, "netloc_ascii": False})
     for k in (2, 3):
         for depths in itertools.product(range(1, 4), repeat=k):
             if sum(depths) > (4 if quick else 5):
